@@ -1265,6 +1265,71 @@ Section Top.
     split; [exact Hx|apply render_value; exact Hx].
   Qed.
 
+
+  (** *** one block, one header: fulfilments of the same block share (time, app hash) *)
+  Lemma step_header_same used s st : Base used s -> sane used [st] ->
+    height (step_state sha s st) = height s ->
+    time (step_state sha s st) = time s /\ apph (step_state sha s st) = apph s.
+  Proof.
+    intros Hb Hs. unfold step_state. destruct st as [c n orc capok txh svc|t a started|cs].
+    - rewrite exec_req. destruct (req_ok c capok orc svc); [destruct (interval_ok (height s) n)|]; simpl; auto.
+    - destruct Hs as [Htz _]. unfold exec_step. rewrite (begin_block_nz sha s t a started Htz). simpl. lia.
+    - unfold exec_step. rewrite (exec_calls_nz sha cs s (b_t _ _ Hb)). simpl.
+      destruct (calls_state_sub sha cs s) as (_ & Ht & Ha & _). auto.
+  Qed.
+
+  Lemma events_header steps : forall used s ev, Base used s -> sane used steps ->
+    In ev (events sha s steps) ->
+    height s <= e_block ev /\ (e_block ev = height s -> e_time ev = time s /\ e_app ev = apph s).
+  Proof.
+    induction steps as [|st steps IH]; intros used s ev Hb Hs; simpl; [tauto|].
+    apply sane_cons in Hs. destruct Hs as [Hs1 Hs2].
+    pose proof (step_height used s st Hb Hs1) as Hh.
+    pose proof (Base_step sha P used s st Hb Hs1) as Hb1.
+    rewrite in_app_iff. intros [Hin|Hin].
+    - destruct (step_events_ok sha P used s st ev Hb Hs1 Hin) as [(Hb' & Ht' & Ha' & _) _].
+      split; [lia|]. intros Heq. rewrite Ht', Ha'. apply (step_header_same used s st Hb Hs1). lia.
+    - destruct (IH _ _ _ Hb1 Hs2 Hin) as [Hle Hhd]. split; [lia|].
+      intros Heq. assert (Hsame : height (step_state sha s st) = height s) by lia.
+      destruct (step_header_same used s st Hb Hs1 Hsame) as [<- <-]. apply Hhd. lia.
+  Qed.
+
+  Lemma same_block_same_header steps : forall used s ev1 ev2, Base used s -> sane used steps ->
+    In ev1 (events sha s steps) -> In ev2 (events sha s steps) -> e_block ev1 = e_block ev2 ->
+    e_time ev1 = e_time ev2 /\ e_app ev1 = e_app ev2.
+  Proof.
+    induction steps as [|st steps IH]; intros used s ev1 ev2 Hb Hs; simpl; [tauto|].
+    apply sane_cons in Hs. destruct Hs as [Hs1 Hs2].
+    pose proof (Base_step sha P used s st Hb Hs1) as Hb1.
+    rewrite !in_app_iff. intros [H1|H1] [H2|H2] Heq.
+    - destruct (step_events_ok sha P used s st ev1 Hb Hs1 H1) as [(_ & -> & -> & _) _].
+      destruct (step_events_ok sha P used s st ev2 Hb Hs1 H2) as [(_ & -> & -> & _) _]. auto.
+    - destruct (step_events_ok sha P used s st ev1 Hb Hs1 H1) as [(Hb' & -> & -> & _) _].
+      destruct (events_header steps _ _ ev2 Hb1 Hs2 H2) as [_ Hhd].
+      destruct Hhd as [-> ->]; [congruence|auto].
+    - destruct (step_events_ok sha P used s st ev2 Hb Hs1 H2) as [(Hb' & -> & -> & _) _].
+      destruct (events_header steps _ _ ev1 Hb1 Hs2 H1) as [_ Hhd].
+      destruct Hhd as [-> ->]; [congruence|auto].
+    - apply (IH _ _ _ _ Hb1 Hs2 H1 H2 Heq).
+  Qed.
+
+  (** several requests fulfilled in one block: one header, and each value is computed from its
+      OWN requester's address (and its own seed) *)
+  Lemma same_block_own_address_lemma steps ev1 ev2 :
+    sane [] steps -> In ev1 (events sha init steps) -> In ev2 (events sha init steps) ->
+    e_block ev1 = e_block ev2 ->
+    let t := e_time ev1 in let a := e_app ev1 in
+    e_time ev2 = t /\ e_app ev2 = a
+    /\ e_val ev1 = rand_val sha t a (snd (e_rid ev1)) (e_seed ev1)
+    /\ e_val ev2 = rand_val sha t a (snd (e_rid ev2)) (e_seed ev2).
+  Proof.
+    intros Hs H1 H2 Heq t a.
+    destruct (same_block_same_header steps [] init ev1 ev2 Base_init Hs H1 H2 Heq) as [Ht Ha].
+    destruct (events_value steps [] init ev1 Base_init Hs H1) as [_ Hv1].
+    destruct (events_value steps [] init ev2 Base_init Hs H2) as [_ Hv2].
+    unfold t, a. rewrite Ht, Ha. rewrite Ht, Ha in Hv1. auto.
+  Qed.
+
   (** *** the life of an arbitrary request in an arbitrary history *)
   Section Life.
     Variables (pre post : list step) (c n : Z) (orc capok : bool) (txh : Z) (svc : option Z).
